@@ -26,9 +26,9 @@ func init() {
 			Edits: []edit{{loc, "\tif loc == nil || loc.LocID == [2]byte{0, 0} {\n\t\tloc, err = r.ResolverLocation(qname, ip)\n\t}", "\tloc, err = r.ResolverLocation(qname, ip)"}}},
 		variant{Name: "c10-cache-hit-opt-without-ecs", Props: []string{"C10"}, Expect: []string{"C10.opt|(*dnsserver.FBDNSDB).ServeDNSWithRCODE|opt#0|ecs-appended-when-present"},
 			Edits: []edit{{hgo, "\t\t\t\t\to.Hdr.Rrtype = dns.TypeOPT\n\n\t\t\t\t\tif ecs != nil {\n\t\t\t\t\t\to.Option = append(o.Option, ecs)\n\t\t\t\t\t}\n", "\t\t\t\t\to.Hdr.Rrtype = dns.TypeOPT\n"}}},
-		variant{Name: "c10-opt-unconditional", Props: []string{"C10"}, Expect: []string{"C10.opt|(*dnsserver.FBDNSDB).ServeDNSWithRCODE|opt#1|only-for-edns0-requests"},
+		variant{Name: "c10-opt-unconditional", Props: []string{"C10"}, Expect: []string{"C10.opt|(*dnsserver.FBDNSDB).ServeDNSWithRCODE|opt#"},
 			Edits: []edit{{hgo, "\tif r.IsEdns0() != nil {\n\t\to = new(dns.OPT)\n\t\to.Hdr.Name = \".\"\n\t\to.Hdr.Rrtype = dns.TypeOPT\n\n\t\tif ecs != nil {\n\t\t\to.Option = append(o.Option, ecs)\n\t\t}\n\n\t\ta.Extra = append([]dns.RR{o}, a.Extra...)\n\t}\n\n\treturn h.writeAndLog(state, a, ecs)", "\tif r.IsEdns0() != nil || ecs != nil {\n\t\to = new(dns.OPT)\n\t\to.Hdr.Name = \".\"\n\t\to.Hdr.Rrtype = dns.TypeOPT\n\n\t\tif ecs != nil {\n\t\t\to.Option = append(o.Option, ecs)\n\t\t}\n\n\t\ta.Extra = append([]dns.RR{o}, a.Extra...)\n\t}\n\n\treturn h.writeAndLog(state, a, ecs)"}}},
-		variant{Name: "c10-echo-rebuilt-option", Props: []string{"C10"}, Expect: []string{"C10.readonly|(*dnsserver.FBDNSDB).ServeDNSWithRCODE|opt-option#2|is-request-ecs"},
+		variant{Name: "c10-echo-rebuilt-option", Props: []string{"C10"}, Expect: []string{"C10.readonly|(*dnsserver.FBDNSDB).ServeDNSWithRCODE|opt-option#"},
 			Edits: []edit{{hgo, "\t\tif ecs != nil {\n\t\t\to.Option = append(o.Option, ecs)\n\t\t}\n\n\t\ta.Extra = append([]dns.RR{o}, a.Extra...)\n\t}\n\n\treturn h.writeAndLog(state, a, ecs)", "\t\tif ecs != nil {\n\t\t\te2 := &dns.EDNS0_SUBNET{Code: dns.EDNS0SUBNET, Family: ecs.Family, SourceNetmask: ecs.SourceScope, SourceScope: ecs.SourceScope, Address: ecs.Address}\n\t\t\to.Option = append(o.Option, e2)\n\t\t}\n\n\t\ta.Extra = append([]dns.RR{o}, a.Extra...)\n\t}\n\n\treturn h.writeAndLog(state, a, ecs)"}}},
 	)
 }
